@@ -99,7 +99,7 @@ pub fn op<K: Raw>(op: &str, a: &[&str]) -> String {
         "ham" => k(0).hamming_dist(k(1)).to_string(),
         "at" => k(0).at_count().to_string(),
         "gc" => k(0).gc_count().to_string(),
-        "tostr" => k(0).to_string(),
+        "tostr" => format!("{}|{:?}", k(0).to_string(), k(0)),
         "frombytes" => show_k(&K::from_bytes(&digits(a[0]))),
         "fromascii" => show_k(&K::from_ascii(a[0].as_bytes())),
         "minrc" => {
